@@ -246,7 +246,7 @@ func TestVerifC04(t *testing.T) {
 				if started >= 0 {
 					rec.InFlight = ops[started]
 				}
-				if recoveryCuts {
+				if recoveryCuts && (!big || cut > nm-4) {
 					// kill the recovery itself at its m-th mutation, for every m, then recover again
 					probe := filepath.Join(base, "probe")
 					exec.Command("cp", "-r", base, probe).Run()
@@ -254,6 +254,9 @@ func TestVerifC04(t *testing.T) {
 					rm, _ := strconv.Atoi(strings.TrimSpace(strings.Join(readLines(filepath.Join(probe, "recover.total")), "")))
 					os.RemoveAll(probe)
 					for m := 1; m <= rm; m++ {
+						if rm > 60 && m > 8 && m <= rm-8 && m%(rm/12+1) != 0 {
+							continue // a long recovery (large transaction left over): first, last and a sample of its cuts
+						}
 						cp := filepath.Join(base, fmt.Sprintf("rc%d", m))
 						exec.Command("cp", "-r", filepath.Join(base, "db"), cp+"-db").Run()
 						os.MkdirAll(cp, 0o755)
